@@ -29,7 +29,7 @@ use vmon::{Args, Mon, Rng, catch, hex, par_run};
 
 const MAX_SCMP: usize = 1232;
 
-fn std_path(r: &mut Rng, at_end: bool) -> RStdPath {
+pub(crate) fn std_path(r: &mut Rng, at_end: bool) -> RStdPath {
     let a = r.range(1, 6) as u8;
     let b = if r.bool() { r.range(1, 5) as u8 } else { 0 };
     let c = if b > 0 && r.bool() { r.range(1, 5) as u8 } else { 0 };
@@ -103,7 +103,58 @@ fn packet(r: &mut Rng, path: RPath, next_hdr: u8, mut payload: Vec<u8>, fix_chec
     (p, bytes)
 }
 
-fn scmp_bytes(typ: u8, code: u8, rest: &[u8]) -> Vec<u8> {
+/// a SCION packet between given endpoints by the reference encoder; UDP / SCMP payloads get a
+/// correct checksum if asked to
+#[allow(clippy::too_many_arguments)]
+pub(crate) fn packet_with(src_ia: u64, src: (u8, Vec<u8>), dst_ia: u64, dst: (u8, Vec<u8>), path: RPath, next_hdr: u8, mut payload: Vec<u8>, fix_checksum: bool, r: &mut Rng) -> (RPacket, Vec<u8>) {
+    let path_type = match &path {
+        RPath::Empty => 0,
+        RPath::Standard(_) => 1,
+        RPath::OneHop { .. } => 2,
+        RPath::Opaque { path_type, .. } => *path_type,
+    };
+    let mut p = RPacket {
+        version: 0,
+        traffic_class: r.u8(),
+        flow_id: r.u32() & 0xfffff,
+        next_hdr,
+        hdr_len_units: 0,
+        payload_len: 0,
+        path_type,
+        dt: dst.0,
+        dl: 0,
+        st: src.0,
+        sl: 0,
+        rsv: 0,
+        dst_ia,
+        src_ia,
+        dst_host: dst.1,
+        src_host: src.1,
+        path,
+        payload: vec![],
+        trailing: 0,
+    };
+    let at = match next_hdr {
+        202 => Some(2),
+        17 => Some(6),
+        _ => None,
+    };
+    if let Some(at) = at
+        && fix_checksum
+        && payload.len() >= at + 2
+    {
+        payload[at] = 0;
+        payload[at + 1] = 0;
+        let ck = p.l4_checksum_over(&payload, next_hdr);
+        payload[at..at + 2].copy_from_slice(&ck.to_be_bytes());
+    }
+    p.payload = payload;
+    p.fix_lengths();
+    let bytes = p.encode();
+    (p, bytes)
+}
+
+pub(crate) fn scmp_bytes(typ: u8, code: u8, rest: &[u8]) -> Vec<u8> {
     let mut v = vec![typ, code, 0, 0];
     v.extend_from_slice(rest);
     v
@@ -430,12 +481,13 @@ pub fn run(args: &Args, mon: &mut Mon) -> (String, Vec<&'static str>) {
             }
         }
     });
+    let sock_rule = crate::sock::run_part(args, mon, if thorough { 6_000 * scale } else { 400 * scale });
     mon.sample_labeled("parts", || json!(["sciparse-model (5 error kinds)", "pocketscion send-scmp-error / forward-local", "echo (DefaultEchoHandler, pocketscion router)", "no-reply (errors quoting echo requests / errors, unknown types, non-requests, bad checksums, truncations)"]));
     (
-        format!("{n} offending packets (0..9216 B, IPv4/IPv6 hosts, empty and standard paths of 1-15 hop fields at their last hop) x all 5 SCMP error kinds built through ScionScmpPacket over the reversed path, through pocketscion's LocalNetworkSimulation (SendSCMPErrorResponse with each kind, ForwardLocal into an AS without receivers) and echo requests (random id/seq/0-300 B data) through DefaultEchoHandler and the simulator's router; plus per case ~20 packets that must stay unanswered (every error type quoting an echo request, an error quoting an error, unknown error types, echo replies / traceroute replies / unknown informational types, echo requests with a wrong checksum, truncated SCMP). Every produced packet is decoded by the reference: length <= 1232, quote is a prefix of the offender, checksum, type; echo replies mirror id/seq/data, swap addresses and carry the reference-reversed path. distinct = (origin, type, fully quoted?, at the size limit?, path type, address lengths) and quiet-packet labels."),
+        format!("{n} offending packets (0..9216 B, IPv4/IPv6 hosts, empty and standard paths of 1-15 hop fields at their last hop) x all 5 SCMP error kinds built through ScionScmpPacket over the reversed path, through pocketscion's LocalNetworkSimulation (SendSCMPErrorResponse with each kind, ForwardLocal into an AS without receivers) and echo requests (random id/seq/0-300 B data) through DefaultEchoHandler and the simulator's router; plus per case ~20 packets that must stay unanswered (every error type quoting an echo request, an error quoting an error, unknown error types, echo replies / traceroute replies / unknown informational types, echo requests with a wrong checksum, truncated SCMP). Every produced packet is decoded by the reference: length <= 1232, quote is a prefix of the offender, checksum, type; echo replies mirror id/seq/data, swap addresses and carry the reference-reversed path. distinct = (origin, type, fully quoted?, at the size limit?, path type, address lengths), quiet-packet labels and, for the socket part, packet kinds seen per mode and kind adjacencies. {sock_rule}"),
         vec![
             "trusted: refscion's decoder, RFC1071 checksum over the SCION pseudo header, path reversal and SCMP layout table",
-            "the socket receive loop of scion-stack (dispatch of received SCMP to handlers and error receivers next to datagram delivery) needs a live underlay and is not driven; its handlers are driven directly",
+            "socket part: the underlay is an in-memory channel (hook socket_over_channel), not the UDP/SNAP underlays; every injected packet decodes as a SCION packet (the underlay contract); a receive call still pending 30 s after the sentinel datagram was injected is reported as stuck",
         ],
     )
 }
